@@ -107,7 +107,8 @@ fn write_columns<W: Write>(instance: &v1::Instance, out: &mut W) -> Result<(), M
                 if let MpsWriteError::InvalidConstraintType { degree, .. } = err {
                     MpsWriteError::InvalidObjectiveType { degree }
                 } else {
-                    panic!() // we know this can't happen
+                    // any other error (e.g. an I/O error of the underlying writer) is reported as it is
+                    err
                 }
             })?;
         // write entries of this var's column for each constraint
